@@ -1,14 +1,37 @@
-(* GenBase.v -- primitives used by the files that gen/rs2v.py generates from the Rust sources
-   (coq/Gen/*.v).  Machine integers are N; an operator that overflows / underflows its Rust type
-   yields None (the debug-build panic).  No proofs here. *)
+(* GenBase.v -- primitives used by the files that gen/rs2v.py generates from the Rust sources.
+   u32 values are N: an operator that overflows / underflows yields None (the debug-build panic).
+   usize values are nat (lengths and indices; 64-bit overflow of an index is not modelled), subtraction
+   and division are checked.  No proofs here. *)
 Require Import Base.
 Open Scope N_scope.
-
-Definition USZMAX : N := 18446744073709551615.      (* usize::MAX on the 64-bit targets *)
 
 Definition u32_add (x y : N) : option N := if x + y <=? U32MAX then Some (x + y) else None.
 Definition u32_mul (x y : N) : option N := if x * y <=? U32MAX then Some (x * y) else None.
 Definition u32_sub (x y : N) : option N := if y <=? x then Some (x - y) else None.
-Definition usize_add (x y : N) : option N := if x + y <=? USZMAX then Some (x + y) else None.
-Definition usize_mul (x y : N) : option N := if x * y <=? USZMAX then Some (x * y) else None.
-Definition usize_sub (x y : N) : option N := if y <=? x then Some (x - y) else None.
+Definition u32_div (x y : N) : option N := if y =? 0 then None else Some (x / y).
+
+Definition usize_add (x y : nat) : option nat := Some (x + y)%nat.
+Definition usize_mul (x y : nat) : option nat := Some (x * y)%nat.
+Definition usize_sub (x y : nat) : option nat := if Nat.leb y x then Some (x - y)%nat else None.
+Definition usize_div (x y : nat) : option nat := if Nat.eqb y 0 then None else Some (Nat.div x y).
+
+(* Rust's Result *)
+Inductive result (A E : Type) : Type := Ok (a : A) | Err (e : E).
+Arguments Ok {A E} a.
+Arguments Err {A E} e.
+
+(* outcome of a translated loop: the enclosing function returned from inside the loop, or the loop
+   ended (condition false / break) with the final values of the variables it assigns *)
+Inductive loopres (R S : Type) : Type := LoopReturn (r : R) | LoopDone (s : S).
+Arguments LoopReturn {R S} r.
+Arguments LoopDone {R S} s.
+
+Fixpoint last_opt {A} (l : list A) : option A :=
+  match l with [] => None | [x] => Some x | _ :: t => last_opt t end.
+
+Fixpoint list_eqb {A} (eqb : A -> A -> bool) (l1 l2 : list A) : bool :=
+  match l1, l2 with
+  | [], [] => true
+  | x :: t1, y :: t2 => eqb x y && list_eqb eqb t1 t2
+  | _, _ => false
+  end.
